@@ -535,7 +535,7 @@ def strat_csv(tier):
                                   "sep": st.sampled_from([",", ";", "\t", " , "]),
                                   "via": st.sampled_from(["func", "element", "element_ctx"]),
                                   "header": st.sampled_from([None, "h1"]),
-                                  "row_end": st.sampled_from(["", "\\\\"])})
+                                  "row_end": st.sampled_from(["", "\\\\"]), "before": st.lists(st.booleans(), max_size=2)})
 
 
 def judge_csv(case):
@@ -570,10 +570,12 @@ def judge_csv(case):
         else:
             el = ToCSV(separator=sep, header=case["header"], duplicate_last_bin=not dup, row_end=row_end)
             ctx = {"output": {"duplicate_last_bin": dup}}
-        res = list(el.run(iter([(h, ctx)])))
-        if len(res) != 1:
+        # other histograms in the same flow, carrying their own output options, change nothing for this one
+        flow = [(histogram([0, 1, 2], [3, 4]), {"output": {"duplicate_last_bin": b}}) for b in case.get("before", [])] + [(h, ctx)]
+        res = list(el.run(iter(flow)))
+        if len(res) != len(flow):
             raise Violation("ToCSV-result-count", "%r" % (res,))
-        text, c = res[0]
+        text, c = res[-1]
         if lena.context.get_recursively(c, "output.filetype", None) != "csv":
             raise Violation("ToCSV-filetype-not-set", "%r" % (c,))
         hc = c.get("histogram", {})
